@@ -39,7 +39,9 @@ def coq_eff(e):
 class Paths:
     def __init__(self, scratch):
         self.default = os.path.join(scratch, ".memento", "data")
-        self.p = {0: self.default, 1: os.path.join(scratch, "P1"), 2: os.path.join(scratch, "M1"), 3: os.path.join(scratch, "P2")}
+        # characters that are special to HTML / XML escaping, to YAML flow syntax and to shells, but legal in a directory name
+        sub = os.path.join(scratch, "R&D <1> #2, 50%")
+        self.p = {0: self.default, 1: os.path.join(sub, "P1"), 2: os.path.join(sub, "M1"), 3: os.path.join(sub, "P2")}
         self.inv = {v: k for k, v in self.p.items()}
 
     def ident(self, path):
